@@ -120,6 +120,21 @@ Proof. exact tie_latest. Qed.
 Theorem C08_tie_subscribe_call : forall ps l c, wf ps -> tied ps (Sub l c).
 Proof. exact tie_sub. Qed.
 
+(** the DEFAULTS of the regenerated signature are load-bearing: `subscribe()` with arguments omitted
+    (any subset, keyword or positional) is the model's [Sub] with `last=True`, `cache=True` *)
+Theorem C08_tie_subscribe_defaults : forall ps,
+  isub_call ps [] [] = isub ps true true /\
+  (forall l, isub_call ps [] [("last"%string, VBool l)] = isub ps l true) /\
+  (forall c, isub_call ps [] [("cache"%string, VBool c)] = isub ps true c) /\
+  (forall l, isub_call ps [VBool l] [] = isub ps l true) /\
+  (forall l c, isub_call ps [VBool l; VBool c] [] = isub ps l c).
+Proof. exact isub_defaults. Qed.
+
+Theorem C08_tie_subscribe_no_arguments : forall ps, wf ps ->
+  exists ps', isub_call ps [] [] = Some (ps', snd (step (abs ps) (Sub true true))) /\
+              abs ps' = fst (step (abs ps) (Sub true true)) /\ wf ps'.
+Proof. exact tie_sub_defaults. Qed.
+
 (** the first `__anext__`: snapshot, `_END` check, queue registration, then replay / last / queue *)
 Theorem C08_tie_first_next : forall ps s g,
   wf ps -> nth_error (p_gens ps) s = Some g -> g_status g = GFresh -> tied ps (Next s).
@@ -143,7 +158,12 @@ Theorem C08_tie_queue_loop : forall s F li qu n ps en g,
     end.
 Proof. exact while_spec. Qed.
 
-(** leaving early (aclose of the generator): the `finally` clause removes the queue *)
+(** leaving early: `aclose()` of the generator, or cancellation of a pending `__anext__` (GeneratorExit /
+    CancelledError raised AT the suspension point): the `finally` clause runs from EACH of the four places the
+    protected body can be suspended at (the three `yield`s and `await q.get()`) and removes the queue.
+    NOT modelled (excluded, see TRUSTED_BASE): `athrow()` of another exception into the generator, a second
+    `__anext__` while one is running, finalisation by the garbage collector; the user item's own
+    `__bool__`/`__eq__` never matters (only `is` and integer comparisons occur). *)
 Theorem C08_tie_leave : forall ps s, wf ps -> tied ps (Leave s).
 Proof. exact tie_leave. Qed.
 
@@ -174,6 +194,13 @@ Proof. exact btie_publish. Qed.
 (** `subscribe(key)` looks the item up AT THE CALL *)
 Theorem C08_tie_broker_subscribe : forall ib k l, bwf ib -> btied ib (BSub k l).
 Proof. exact btie_sub. Qed.
+
+(** `subscribe(key)` with `last` omitted = the model's `BSub key true` (default of `last` in the broker's
+    signature, default of `cache` in the item's) *)
+Theorem C08_tie_broker_subscribe_default : forall ib k, bwf ib ->
+  exists ib', ibsub ib k [] = Some (ib', snd (bstep (babs ib) (BSub k true))) /\
+              babs ib' = fst (bstep (babs ib) (BSub k true)) /\ bwf ib'.
+Proof. exact btie_sub_default. Qed.
 
 (** `end(key)`: pop, then aclose of the popped item *)
 Theorem C08_tie_broker_end : forall ib k, bwf ib -> btied ib (BEnd k).
@@ -209,6 +236,9 @@ Print Assumptions C08_tie_clear.
 Print Assumptions C08_tie_aclose.
 Print Assumptions C08_tie_latest.
 Print Assumptions C08_tie_subscribe_call.
+Print Assumptions C08_tie_subscribe_defaults.
+Print Assumptions C08_tie_subscribe_no_arguments.
+Print Assumptions C08_tie_broker_subscribe_default.
 Print Assumptions C08_tie_first_next.
 Print Assumptions C08_tie_later_next.
 Print Assumptions C08_tie_queue_loop.
